@@ -591,6 +591,29 @@ def _r(a):
     return z3.ToReal(a) if a.sort() == z3.IntSort() else a
 
 
+def zmul(a, b):
+    """a*b on z3 terms with syntactic cancellation of (n/d) * (d*rest) -> n*rest. Sound because every
+    symbolic division registers the obligation d != 0."""
+    if a.sort() != b.sort():
+        a, b = _r(a), _r(b)
+    for x, y in ((a, b), (b, a)):
+        if z3.is_app(x) and x.decl().kind() == z3.Z3_OP_DIV:
+            num, den = x.children()
+            if z3.is_rational_value(den) or z3.is_int_value(den):
+                continue
+            if y.eq(den):
+                return num
+            if z3.is_app(y) and y.decl().kind() == z3.Z3_OP_MUL:
+                fs = y.children()
+                for i, f in enumerate(fs):
+                    if f.eq(den):
+                        out = num
+                        for r in fs[:i] + fs[i + 1 :]:
+                            out = out * r
+                        return out
+    return a * b
+
+
 class SymNum:
     __slots__ = ("t", "tag")
 
@@ -620,10 +643,10 @@ class SymNum:
         return self._bin(o, lambda a, b: a - b, True)
 
     def __mul__(self, o):
-        return self._bin(o, lambda a, b: a * b)
+        return self._bin(o, zmul)
 
     def __rmul__(self, o):
-        return self._bin(o, lambda a, b: a * b, True)
+        return self._bin(o, zmul, True)
 
     @staticmethod
     def _div(a, b):
